@@ -816,6 +816,12 @@ class State:
             return r
         last = p.split('::')[-1]
         recv = self.refine(a[0]) if a else None
+        if p.startswith('std::bool::<impl bool>::') or p.startswith('core::bool::<impl bool>::'):
+            # `cond.then_some(v)` / `cond.then(|| v)`
+            if last in ('then_some', 'then') and len(a) == 2:
+                if self.truth(recv):
+                    return some(a[1] if last == 'then_some' else self.apply(a[1], [], node))
+                return NONE
         if last == 'map' and 'array::<impl' in p and recv is not None and recv[0] == 'list' and len(a) == 2:
             # `[x, y].map(f)`: element-wise, in order
             return ('list', tuple(self.apply(a[1], [it], node) for it in recv[1]))
@@ -863,6 +869,37 @@ class State:
                 if last == 'take' and self.policy.is_effect(p):
                     self.effect('call', p, a, node)
                 return recv
+            if last in ('is_some_and', 'is_ok_and', 'is_none_or') and len(a) == 2:
+                if recv[0] != 'ctor':
+                    self.split_enum(recv, OPTION if is_opt else RESULT, last)
+                if recv[2] == good:
+                    return lit(self.truth(self.apply(a[1], [cfield(recv, '0')], node)), 'bool')
+                return lit(last == 'is_none_or', 'bool')
+            if last == 'map_or_else' and len(a) == 3:
+                if recv[0] != 'ctor':
+                    self.split_enum(recv, OPTION if is_opt else RESULT, last)
+                if recv[2] == good:
+                    return self.apply(a[2], [cfield(recv, '0')], node)
+                return self.apply(a[1], [] if is_opt else [cfield(recv, '0')], node)
+            if last == 'unwrap_or_default' and recv[0] == 'ctor' and recv[2] == good:
+                return cfield(recv, '0')
+            if last == 'transpose' and len(a) == 1:
+                # Option<Result<T, E>> <-> Result<Option<T>, E>
+                if recv[0] != 'ctor':
+                    self.split_enum(recv, OPTION if is_opt else RESULT, last)
+                if is_opt:
+                    if recv[2] == 'None':
+                        return ok(NONE)
+                    inner = self.refine(cfield(recv, '0'))
+                    if inner[0] != 'ctor':
+                        self.split_enum(inner, RESULT, 'transpose')
+                    return ok(some(cfield(inner, '0'))) if inner[2] == 'Ok' else inner
+                if recv[2] == 'Err':
+                    return some(recv)
+                inner = self.refine(cfield(recv, '0'))
+                if inner[0] != 'ctor':
+                    self.split_enum(inner, OPTION, 'transpose')
+                return some(ok(cfield(inner, '0'))) if inner[2] == 'Some' else NONE
             if last in ('map', 'and_then', 'map_err', 'ok_or', 'ok_or_else', 'ok', 'filter', 'context', 'with_context',
                         'or_else', 'map_or'):
                 if recv[0] != 'ctor':
@@ -924,6 +961,9 @@ class State:
         if p == 'std::boxed::Box::new_uninit':
             return ('call', p, ())
         if p in ('std::default::Default::default',):
+            d = self.default_of_type(node.get('ty', '') if node else '')
+            if d is not None:
+                return d
             return ('call', p + '@' + (node.get('ty', '') if node else ''), ())
         if p in ('std::vec::Vec::new', 'std::vec::Vec::with_capacity'):
             return ('list', ())
@@ -1664,6 +1704,153 @@ class State:
         pat = some_arm['pat']['pats'][0] if some_arm['pat']['k'] == 'TupleStruct' else some_arm['pat']['fields'][0]['p']
         body = some_arm['body']
         loop_id = loop.get('id')
+        return self.iterate(it, pat, body, loop_id, env, e)
+
+    def default_of_type(self, ty, depth=0):
+        """`Default::default()` of a primitive, an Option / Vec / String, or a struct of this crate made of those (what
+        `#[derive(Default)]` produces); None when the type is not one of these"""
+        ty = (ty or '').strip()
+        if ty in ('u8', 'u16', 'u32', 'u64', 'u128', 'usize', 'i8', 'i16', 'i32', 'i64', 'i128', 'isize'):
+            return lit(0, ty)
+        if ty == 'bool':
+            return lit(False, 'bool')
+        if ty.startswith('std::option::Option<') or ty.startswith('core::option::Option<'):
+            return NONE
+        if ty.startswith('std::vec::Vec<'):
+            return ('list', ())
+        a = self.f.adt(re.sub(r'<.*$', '', ty)) if ty else None
+        if a and a.get('local') and a.get('kind') == 'struct' and depth < 3:
+            # only when the impl is the derived one (field-wise defaults): a hand-written impl has a body of its own,
+            # which the caller inlines instead
+            hp = '<%s as std::default::Default>::default' % a['path']
+            if hp in self.f.hir and not derived_default_shape(self.f.hir[hp]):
+                return None          # a hand-written impl: left as the opaque `default()` it always was
+            fields = []
+            for fd in a['variants'][0]['fields']:
+                d = self.default_of_type(fd['ty'], depth + 1)
+                if d is None:
+                    return None
+                fields.append((fd['name'], d))
+            return ctor(a['path'], a['variants'][0]['name'], fields)
+        return None
+
+    def fields_assigned_by_callees(self, body, env):
+        """{(local id, field): 'local.field'} for fields of a local struct value that the loop body changes through a method
+        it calls on that local (`state.bump()` with `fn bump(&mut self) { self.next += 1 }`): the loop carries those fields
+        exactly like fields it assigns itself"""
+        out = {}
+
+        def walk(n):
+            if isinstance(n, dict):
+                if n.get('k') == 'Closure':
+                    return
+                if n.get('k') == 'MethodCall' and (n.get('recv_ty') or '').startswith('&mut'):
+                    r = n['recv']
+                    while r.get('k') == 'AddrOf' or (r.get('k') == 'Unary' and r.get('op') == 'Deref'):
+                        r = r['e'] if r['k'] == 'AddrOf' else r['a']
+                    callee = n.get('callee')
+                    h = self.f.hir.get(callee) if callee else None
+                    if h is None and callee:
+                        h = self.f.hir.get(getattr(self.f, '_norm_hir', {}).get(norm_path(callee), ''))
+                    if r.get('k') == 'Path' and r.get('res') == 'local' and r.get('id') in env and h is not None \
+                            and self.refine(env[r['id']])[0] == 'ctor' and h.get('params') and h['params'][0].get('k') == 'Bind':
+                        sid = h['params'][0]['id']
+                        for (vid, fname), _ in assigned_fields_through_ref(h['body'], sid).items():
+                            out[(r['id'], fname)] = '%s.%s' % (r.get('name'), fname)
+                for v in n.values():
+                    walk(v)
+            elif isinstance(n, list):
+                for v in n:
+                    walk(v)
+        walk(body)
+        return out
+
+    def explicit_iterator_loop(self, e, env):
+        """(local id, iterator term, item pattern, body) when loop `e` is `while let Some(p) = it.next() { body }` or
+        `loop { match it.next() { Some(p) => body, None => break } }` over a local `it` that holds an iterator whose
+        source we know (`xs.iter()`, `v.drain(..)`, `into_iter()`, adaptors over those); else None"""
+        body = e['body']
+        ifn = body.get('expr') if not body['stmts'] else None
+        letelse = None
+        if ifn is None and body['stmts'] and body['stmts'][0].get('k') == 'Let' and body['stmts'][0].get('els') is not None \
+                and e.get('src') != 'While':
+            letelse = body['stmts'][0]          # loop { let Some(p) = it.next() else { break }; rest }
+        elif ifn is None:
+            return None
+
+        def next_call(n):
+            while n.get('k') in ('AddrOf',) or (n.get('k') == 'Unary' and n.get('op') == 'Deref'):
+                n = n['e'] if n['k'] == 'AddrOf' else n['a']
+            if n.get('k') != 'MethodCall' or norm_path(n.get('callee') or '').split('::')[-1] != 'next' or n.get('args'):
+                return None
+            r = n['recv']
+            while r.get('k') in ('AddrOf',) or (r.get('k') == 'Unary' and r.get('op') == 'Deref'):
+                r = r['e'] if r['k'] == 'AddrOf' else r['a']
+            if r.get('k') == 'Path' and r.get('res') == 'local' and r.get('id') in env:
+                return r['id']
+            return None
+
+        def some_pat(p):
+            if p.get('k') == 'TupleStruct' and p.get('variant') == 'Some' and len(p.get('pats', [])) == 1:
+                return p['pats'][0]
+            return None
+        lid = pat = lbody = None
+        if letelse is not None:
+            els = letelse['els']
+            only_break = not els.get('stmts') and (els.get('expr') or {}).get('k') == 'Break' and (els.get('expr') or {}).get('e') is None
+            if not only_break and len(els.get('stmts', [])) == 1 and not els.get('expr'):
+                st = els['stmts'][0]
+                st = st.get('e', st)
+                only_break = st.get('k') == 'Break' and st.get('e') is None
+            if only_break and letelse.get('init') is not None:
+                lid = next_call(letelse['init'])
+                pat = some_pat(letelse['pat'])
+                lbody = {'k': 'Block', 'l': body.get('l'), 'stmts': body['stmts'][1:], 'expr': body.get('expr')}
+        elif e.get('src') == 'While' and ifn['k'] == 'If' and ifn['c'].get('k') == 'LetExpr':
+            lid = next_call(ifn['c']['init'])
+            pat = some_pat(ifn['c']['pat'])
+            lbody = ifn['t']
+        elif ifn['k'] == 'Match' and ifn.get('src', 'Normal') == 'Normal' and len(ifn.get('arms', [])) == 2:
+            lid = next_call(ifn['scrut'])
+            arms = ifn['arms']
+            sa = [a for a in arms if some_pat(a['pat']) is not None and a.get('guard') is None]
+            na = [a for a in arms if a not in sa]
+            if len(sa) == 1 and len(na) == 1:
+                nb = na[0]['body']
+                while nb.get('k') == 'Block' and not nb.get('stmts') and nb.get('expr'):
+                    nb = nb['expr']
+                if nb.get('k') == 'Break' and nb.get('e') is None:
+                    pat, lbody = some_pat(sa[0]['pat']), sa[0]['body']
+        if lid is None or pat is None or lbody is None:
+            return None
+        it = self.refine(env[lid])
+        try:
+            sq = self.seq_of(it)
+        except EvalError:
+            return None
+        if sq[0] not in ('seq', 'list'):
+            return None
+        # the body must not use the iterator itself (peeking, nested next()): then it is not a plain traversal
+        uses = [0]
+
+        def walk(n):
+            if isinstance(n, dict):
+                if n.get('k') == 'Path' and n.get('res') == 'local' and n.get('id') == lid:
+                    uses[0] += 1
+                for v in n.values():
+                    walk(v)
+            elif isinstance(n, list):
+                for v in n:
+                    walk(v)
+        walk(lbody)
+        if uses[0]:
+            return None
+        return lid, it, pat, lbody
+
+    def iterate(self, it, pat, body, loop_id, env, e):
+        """run `body` once per item of the iterator term `it` with `pat` bound to the item: concretely for a known list,
+        otherwise as one generic iteration (shared by `for` loops and by explicit `while let Some(x) = it.next()` /
+        `loop { match it.next() { .. } }` loops over a local iterator)"""
         s = self.seq_of(it)
         if s[0] == 'list':
             for item in s[1]:
@@ -1692,7 +1879,7 @@ class State:
                 lvars[vid] = lv
                 env[vid] = lv
         flvars = {}
-        for (vid, fname), disp in assigned_fields(body).items():
+        for (vid, fname), disp in list(assigned_fields(body).items()) + list(self.fields_assigned_by_callees(body, env).items()):
             cur = env.get(vid)
             if cur is not None and cur[0] == 'ctor' and cfield(cur, fname) is not None and vid not in lvars:
                 lv = ('call', 'loopvar', (src, cfield(cur, fname), ('lit', disp, '')))
@@ -1757,6 +1944,13 @@ class State:
         body = e['body']
         ifn = body.get('expr') if not body['stmts'] else None
         is_while = e.get('src') == 'While' and ifn is not None and ifn['k'] == 'If'
+        ex = self.explicit_iterator_loop(e, env)
+        if ex is not None:
+            it_id, it_term, pat, lbody = ex
+            r = self.iterate(it_term, pat, lbody, loop_id, env, e)
+            # the iterator has been run to its end
+            env[it_id] = ('call', 'after', (it_term, ('lit', 'exhausted', ''), ('lit', 0, '#')))
+            return r
         for _ in range(self.policy.loop_cut or 70):
             if is_while:
                 c = ifn['c']
@@ -1996,6 +2190,18 @@ class State:
                 self.place_assign(strip_place(recv_node), ('list', recv[1] + (args[0],)), env)
                 return UNIT
             self.effect('call', np, [recv] + args, e)
+            if np.endswith('::extend') and len(args) == 1 and strip_place(recv_node).get('k') == 'Path' \
+                    and strip_place(recv_node).get('res') == 'local':
+                # a still-empty local collection filled from one iterator holds exactly that iterator's items
+                empty = recv == ('list', ()) or (recv[0] == 'call' and not recv[2] and
+                                                  re.search(r'(default|new|with_capacity)(@|$)|with_capacity', recv[1]) is not None)
+                if empty:
+                    try:
+                        sq = self.seq_of(args[0])
+                    except EvalError:
+                        sq = None
+                    if sq is not None and sq[0] in ('seq', 'list'):
+                        self.place_assign(strip_place(recv_node), sq, env)
             return UNIT
         recv = self.expr(recv_node, env)
         args = [recv] + [self.expr(x, env) for x in e['args']]
@@ -2047,6 +2253,47 @@ def assigned_fields(node):
                 walk(v)
     walk(node)
     return out
+
+
+def assigned_fields_through_ref(node, local_id):
+    """like assigned_fields, for a local that is a reference (`self` of a `&mut self` method): fields written through it"""
+    out = {}
+
+    def walk(n):
+        if isinstance(n, dict):
+            if n.get('k') == 'Closure':
+                return
+            if n.get('k') in ('Assign', 'AssignOp'):
+                t = n['a']
+                while t.get('k') == 'Unary' and t.get('op') == 'Deref':
+                    t = t['a']
+                if t.get('k') == 'Field':
+                    b = t['e']
+                    while b.get('k') == 'Unary' and b.get('op') == 'Deref':
+                        b = b['a']
+                    if b.get('k') == 'Path' and b.get('res') == 'local' and b.get('id') == local_id:
+                        out[(local_id, t['name'])] = t['name']
+            for v in n.values():
+                walk(v)
+        elif isinstance(n, list):
+            for v in n:
+                walk(v)
+    walk(node)
+    return out
+
+
+def derived_default_shape(h):
+    """the body `#[derive(Default)]` generates: a struct literal whose every field is `Default::default()`"""
+    b = h.get('body') or {}
+    while b.get('k') == 'Block' and not b.get('stmts') and b.get('expr'):
+        b = b['expr']
+    if b.get('k') != 'Struct':
+        return False
+    for f in b.get('fields', []):
+        e = f.get('e') or {}
+        if not (e.get('k') == 'Call' and norm_path(e.get('callee') or '').endswith('default::Default::default') and not e.get('args')):
+            return False
+    return True
 
 
 def with_field(c, name, val):
